@@ -214,10 +214,11 @@ def decode_pass(run, want, **override):
     return res
 
 
-def validate_parts(run, res, trace_module, fname, max_lines=250000, keep=False):
+def validate_parts(run, res, trace_module, fname, max_lines=250000, keep=False, slim=None):
     """Validate <part>/<fname> of every part with its own TLC process.  Returns
     (list of (event, extra printed fields), events validated, list of TlcResult).
-    Trace files are deleted once validated (the rejected events are kept in memory)."""
+    Trace files are deleted once validated in the thorough tier (the rejected events are kept
+    in memory, reduced by `slim` when given)."""
     t = res["tier"]
     files = []
     for _, d in res["parts"]:
@@ -244,7 +245,8 @@ def validate_parts(run, res, trace_module, fname, max_lines=250000, keep=False):
             with open(path) as f:
                 for i, line in enumerate(f, 1):
                     if i in rej:
-                        evs.append((json.loads(line), rej[i]))
+                        ev = json.loads(line)
+                        evs.append((slim(ev) if slim else ev, rej[i]))
         if not keep and run.tier == "thorough":
             os.remove(path)
         return n, evs, r
@@ -317,3 +319,37 @@ def header_bits(hexs):
         d["tc"] = -1
         d["subtype"] = -1
     return d
+
+
+def replay_cases(run, path, which, trace_module):
+    """Re-run only the frames of a replay file: decode them with the harness (probe mode records the
+    same events as the pass), judge the events with the trace specification.  Returns the list of
+    (event, extra) the specification rejects."""
+    with open(path) as f:
+        rp = json.load(f)
+    hexes = [c["frame_hex"] for c in rp.get("cases", []) if "frame_hex" in c]
+    if not hexes:
+        raise core.ToolError("replay file has no cases")
+    res = {"exe": core.build_rs("c01")}
+    events = []
+    for rec in probe(res, hexes):
+        for part in rec["record"]:
+            if which in part:
+                ev = part[which]
+                if which == "c08":
+                    ev = {"i": 0, "cls": "replay", "hex": rec["hex"], "leaves": ev["leaves"]}
+                events.append(ev)
+    if not events:
+        return [], 0
+    tr = os.path.join(run.work, "replay.ndjson")
+    core.write_ndjson(tr, events)
+    r = core.tlc(trace_module, env={"TRACE": tr}, timeout=600, xmx="3g", workers=1, deque=True)
+    if not r.ok or "TRACE-CONSUMED" not in r.out:
+        raise core.ToolError(f"replay validation failed: {r.error}\n{r.out[-2000:]}")
+    run.add_tlc(r)
+    out = []
+    for line in r.out.splitlines():
+        mm = re.match(r'<<"REJECT", (\d+)(.*)>>', line)
+        if mm:
+            out.append((events[int(mm.group(1)) - 1], re.findall(r'"([^"]*)"', mm.group(2))))
+    return out, len(events)
